@@ -11,6 +11,7 @@ import (
 	"github.com/els0r/goProbe/v4/pkg/capture/capturetypes"
 	"github.com/els0r/goProbe/v4/pkg/goDB"
 	"github.com/els0r/goProbe/v4/pkg/goDB/encoder/encoders"
+	"github.com/els0r/goProbe/v4/pkg/types/hashmap"
 	"github.com/els0r/telemetry/logging"
 
 	"verif/dbcheck"
@@ -66,6 +67,7 @@ type writeout struct {
 	drops uint64
 	enc   encoders.Type
 	level int
+	fm    *hashmap.AggFlowMap // built once; DBWriter.Write does not modify it
 }
 
 func (w writeout) String() string {
@@ -79,12 +81,15 @@ func (w writeout) block() model.Block {
 }
 
 // exec performs the write-out through the real DBWriter (as the writer process).
-func (w writeout) exec() error {
+func (w *writeout) exec() error {
+	if w.fm == nil {
+		w.fm = model.ToAggFlowMap(w.flows)
+	}
 	dw := goDB.NewDBWriter(wdb, w.iface, w.enc)
 	if w.level > 0 {
 		dw.EncoderLevel(w.level)
 	}
-	return dw.Write(model.ToAggFlowMap(w.flows), capturetypes.CaptureStats{Dropped: w.drops}, w.ts)
+	return dw.Write(w.fm, capturetypes.CaptureStats{Dropped: w.drops}, w.ts)
 }
 
 // interesting start instants: mid-day, shortly before a day / month / year boundary (UTC).
